@@ -745,8 +745,7 @@ def _level_io(repo, col, fi):
 # --------------------------------------------------------------------------------------
 
 
-def _ends(repo, col):
-    R = "R-C01-ends"
+def _ends(repo, col, R="R-C01-ends"):
     fi = repo.method("Cell", "_init_morph_jax_spsolve")
     ev = kin.new_eval(repo)
     obj = ObjV("Cell", {"cumsum_ncomp": SymArr("Cu", step="n"), "_par_inds": PW.of(Rat.atom("b")),
